@@ -567,6 +567,11 @@ impl<C: CrcCalculator> Encapsulator<C> {
                 pdu_len_encapsulated = pdu_len_available;
             }
 
+            // only the crc remains but it does not fit: an empty fragment would be refused by the receiver
+            if pdu_len_encapsulated == 0 {
+                return Err(EncapError::ErrorSizeBuffer);
+            }
+
             header = generate_gse_header(
                 &PktType::IntermediateFragPkt,
                 &LabelType::ReUse,
@@ -969,6 +974,11 @@ pub fn encap_frag_preview(
         } else {
             gse_len = FRAG_ID_LEN + pdu_len_available;
             pdu_len_encapsulated = pdu_len_available;
+        }
+
+        // only the crc remains but it does not fit: an empty fragment would be refused by the receiver
+        if pdu_len_encapsulated == 0 {
+            return Err(EncapError::ErrorSizeBuffer);
         }
 
         let buffer_offset = FIXED_HEADER_LEN + gse_len;
